@@ -511,7 +511,10 @@ class StabilizerCode(metaclass=ABCMeta):
         for col in cols:
             if col < self.n:
                 location = self.qubit_coordinates[col]
-                operator[location] = 'X'
+                if location in operator.keys():
+                    operator[location] = 'Y'
+                else:
+                    operator[location] = 'X'
             else:
                 location = self.qubit_coordinates[col - self.n]
                 if location in operator.keys():
